@@ -283,7 +283,9 @@ func checkRestrictedJoin(
 
 			// ... and only our own: the authorising user's server has to sign
 			// the join event, which we can only do for a local user.
-			if parsed, parseErr := spec.NewUserID(userID, true); parseErr == nil && parsed.Domain() != localServerName {
+			// (HandleSendJoin refuses an authorising user whose ID does not parse,
+			// so such a member is not one of ours either.)
+			if parsed, parseErr := spec.NewUserID(userID, true); parseErr != nil || parsed.Domain() != localServerName {
 				continue
 			}
 
